@@ -143,7 +143,10 @@ impl Dur {
     pub fn from_f64s(v: &[f64; 10]) -> Option<Dur> {
         let mut d = Dur::zero();
         for i in 0..10 {
-            if !v[i].is_finite() || v[i].abs() >= 1e30 || v[i].fract() != 0.0 {
+            // days..seconds at or beyond 2^53 (each counts at least a second) and sub-second fields at or
+            // beyond 1e25 ns-units are certainly invalid; the bound keeps the i128 products in range
+            let bound = if (3..=6).contains(&i) { 9007199254740992.0 } else { 1e25 };
+            if !v[i].is_finite() || v[i].abs() >= bound || v[i].fract() != 0.0 {
                 return None;
             }
             d.f[i] = v[i] as i128;
